@@ -29,6 +29,9 @@ package balance
 //@ requires b.Interval > 0
 //@ ensures [formula] {C02} bigval(result) == charge(b, lastSeen, clock())
 //@ ensures [non-nil] {C02} result != nil
+//@ lemma [slicing] {C02} forall t0 int, t1 int, t2 int :: t0 <= t1 && t1 <= t2 && bigval(b.CreditPerInterval) >= 0 && b.Interval > 0 ==> charge(b, t0, t1) + charge(b, t1, t2) <= charge(b, t0, t2) && charge(b, t0, t2) <= charge(b, t0, t1) + charge(b, t1, t2) + 1
+//@ lemma [nothing-for-no-time] {C02} forall t int :: b.Interval > 0 ==> charge(b, t, t) == 0
+//@ lemma [monotone] {C02} forall t0 int, t1 int, t2 int :: t0 <= t1 && t1 <= t2 && bigval(b.CreditPerInterval) >= 0 && b.Interval > 0 ==> charge(b, t0, t1) <= charge(b, t0, t2)
 
 //@ func (*payPerInterval).OnUpdate
 //@ property C01 C02 C03 C15
